@@ -37,14 +37,14 @@ class C11(Cfg):
 
     def streams(self, tier, seed, work, dv):
         res = []
-        n, ln = (30, 16) if tier == "quick" else (350, 24)
+        n, ln = (30, 16) if tier == "quick" else (600, 24)
         path = os.path.join(work, "hist_C11.ops")
         lib.sh([dv, "gen", "--prop", "C11", "--seed", str(seed), "--n", str(n), "--len", str(ln), "--out", path], check=True)
         res.append(("histories C11 seed=%d n=%d" % (seed, n), path, False))
         if tier != "quick":
             path = os.path.join(work, "orders_C11.ops")
-            lib.sh([dv, "gen", "--prop", "orders", "--seed", str(seed + 77), "--n", "1", "--len", "3", "--out", path], check=True)
-            res.append(("all pull orders len=3 bases=1 seed=%d" % (seed + 77), path, True))
+            lib.sh([dv, "gen", "--prop", "orders", "--seed", str(seed + 77), "--n", "3", "--len", "3", "--out", path], check=True)
+            res.append(("all pull orders len=3 bases=3 seed=%d" % (seed + 77), path, True))
         return res
 
     def nontrivial(self, ops, outs):
